@@ -10,6 +10,7 @@ from .evalx import EvalMixin, PathEnd
 from .execs import ExecMixin, Outcome
 from .calls import CallMixin, loop_ordinals
 from .builtins import BuiltinMixin
+from . import externals as _externals
 
 
 def _in_init(self, cls):
@@ -66,6 +67,11 @@ class Engine(EvalMixin, ExecMixin, CallMixin, BuiltinMixin):
         self.hint_dict_type = None
         self.hint_set_type = None
         self.global_axioms = None
+        self.finite_side = []
+        self.ufuncs_used = set()
+        self._axiom_cache = None
+        self.init_env = None
+        self.init_store = None
 
     # ------------------------------------------------------------------ statement wrapper collecting raises
     def ex(self, s, st):
@@ -80,9 +86,15 @@ class Engine(EvalMixin, ExecMixin, CallMixin, BuiltinMixin):
 
     # ------------------------------------------------------------------ axioms
     def axioms(self):
-        """registered axioms as closed z3 formulas (assumed: they are listed in the trusted base)"""
+        """registered axioms (closed z3 formulas) whose uninterpreted functions all occur in this proof;
+        they are assumed and listed in the trusted base of the evidence"""
+        key = (frozenset(self.ufuncs_used), FINITE['K'])
+        if self._axiom_cache is not None and self._axiom_cache[0] == key:
+            return self._axiom_cache[1]
         out = []
-        for name, vars_, body, src in REG.axioms:
+        for name, vars_, body, src, uses in REG.axioms:
+            if not uses <= self.ufuncs_used:
+                continue
             st = State()
             st.spec = True
             bv = []
@@ -92,6 +104,7 @@ class Engine(EvalMixin, ExecMixin, CallMixin, BuiltinMixin):
                 st.env[v] = unpack(st, c, t)
             f = self.truth(self.ev1(body, st), st)
             out.append((name, z3.ForAll(bv, f) if bv else f))
+        self._axiom_cache = (key, out)
         return out
 
     # ------------------------------------------------------------------ function verification
@@ -153,14 +166,16 @@ class Engine(EvalMixin, ExecMixin, CallMixin, BuiltinMixin):
         res.inlined = sorted(self.inlined)
         res.contracts_used = sorted(self.contracts_used)
         res.externals_used = sorted(self.externals_used)
+        if res.status in ('failed', 'undecided'):
+            try:
+                self.refute(fi, spec, res)
+            except Exception:
+                res.refute_error = traceback.format_exc()
         res.time = time.time() - t0
         return res
 
     def generate(self, fi, spec, res):
         st = self.build_initial_state(fi, spec)
-        self.axiom_list = self.axioms()
-        for _, ax in self.axiom_list:
-            st.assume(ax)
         ss = st.fork()
         ss.spec = True
         self.eval_lets(spec, ss)
@@ -169,13 +184,14 @@ class Engine(EvalMixin, ExecMixin, CallMixin, BuiltinMixin):
             st.assume(self.spec_eval_bool(r, st))
         # vacuity guard: the precondition must be satisfiable
         s = z3.Solver()
-        s.set('timeout', 10000)
+        s.set('timeout', 5000)
         s.add(st.pc)
         rq = s.check()
         res.vacuity['requires_sat'] = str(rq)
         if rq == z3.unsat:
             raise SpecError('precondition of %s is unsatisfiable (vacuous contract)' % fi.qual)
         old = (dict(st.env), dict(st.store))
+        self.init_env, self.init_store = old
         st.old = old
         for g in spec.ghost_entry:
             self.run_ghost(g, st)
@@ -339,6 +355,7 @@ class Engine(EvalMixin, ExecMixin, CallMixin, BuiltinMixin):
             groups.setdefault(ob.name, []).append(ob)
         all_ok = True
         any_fail = False
+        self.ob_groups = groups
         for name, obs in groups.items():
             rec = {'name': name, 'kind': obs[0].kind, 'instances': len(obs), 'status': 'discharged', 'time': 0.0,
                    'backend': 'z3', 'where': obs[0].where}
@@ -348,15 +365,17 @@ class Engine(EvalMixin, ExecMixin, CallMixin, BuiltinMixin):
                 rec['time'] += time.time() - t0
                 if status == 'unsat':
                     continue
+                rec['path'] = list(ob.path)
                 if status == 'sat':
                     rec['status'] = 'failed'
                     rec['model'] = model
-                    rec['path'] = list(ob.path)
+                    rec['model_scope'] = 'unbounded'
                     any_fail = True
-                    break
-                rec['status'] = 'unknown'
-                rec['path'] = list(ob.path)
-                all_ok = False
+                else:
+                    rec['status'] = 'unknown'
+                    all_ok = False
+                break       # one undischarged instance decides the obligation
+            rec['time'] = round(rec['time'], 3)
             res.obligations.append(rec)
         if any_fail:
             res.status = 'failed'
@@ -368,15 +387,18 @@ class Engine(EvalMixin, ExecMixin, CallMixin, BuiltinMixin):
             res.status = 'undecided'
             res.reason = 'no obligations generated (vacuity guard)'
 
-    def solve(self, ob):
+    def solve(self, ob, timeout_ms=None):
+        timeout_ms = timeout_ms or self.timeout_ms
         g = z3.simplify(ob.goal) if not z3.is_quantifier(ob.goal) else ob.goal
         if z3.is_true(g):
             return 'unsat', None
         # 1st attempt: E-matching only (Boogie-style; stable on verification conditions)
         s = z3.Solver()
-        s.set('timeout', max(2000, self.timeout_ms // 2))
+        s.set('timeout', max(2000, timeout_ms // 2))
         s.set('auto_config', False)
         s.set('smt.mbqi', False)
+        ax = [a for _, a in self.axioms()]
+        s.add(ax)
         s.add(ob.pc)
         s.add(z3.Not(ob.goal))
         r = s.check()
@@ -384,7 +406,8 @@ class Engine(EvalMixin, ExecMixin, CallMixin, BuiltinMixin):
             return 'unsat', None
         # 2nd attempt: default configuration (MBQI on): can also produce counter-models
         s = z3.Solver()
-        s.set('timeout', self.timeout_ms)
+        s.set('timeout', timeout_ms)
+        s.add(ax)
         s.add(ob.pc)
         s.add(z3.Not(ob.goal))
         r = s.check()
@@ -392,17 +415,175 @@ class Engine(EvalMixin, ExecMixin, CallMixin, BuiltinMixin):
             return 'unsat', None
         if r == z3.sat:
             m = s.model()
-            return 'sat', self.model_summary(m)
+            return 'sat', self.concretize(m, ob)
         return 'unknown', None
 
-    def model_summary(self, m):
-        out = {}
-        for d in m.decls():
+    # ------------------------------------------------------------------ finite-scope refutation
+    def refute(self, fi, spec, res):
+        """counter-model search for undischarged obligations: the same generator is re-run with all
+        sequence lengths / universes bounded by K and quantifiers expanded (quantifier-free VCs)."""
+        from . import state as S
+        pending = [o for o in res.obligations if o['status'] in ('unknown',) or (o['status'] == 'failed' and not o.get('model'))]
+        if not pending:
+            return
+        names = {o['name'].split('/')[0] for o in pending}
+        t_budget = time.time() + self.refute_budget_s
+        for K in (2, 3, 4):
+            if not names or time.time() > t_budget:
+                break
+            S.FINITE['K'] = K
             try:
-                v = m[d]
-                s = str(v)
-                if len(s) < 200:
-                    out[d.name()] = s
-            except Exception:
-                pass
+                sub = Engine(self.index, self.timeout_ms, self.feas_budget_ms)
+                sub.reset()
+                sub.current_fn = fi.qual
+                sub.verifying = fi.qual
+                r2 = Result(fi.qual)
+                try:
+                    sub.generate(fi, spec, r2)
+                except (OutOfSubset, SpecError) as e:
+                    res.refute_error = 'finite-scope generation failed: %s' % e
+                    return
+                groups = {}
+                for ob in sub.obligations:
+                    groups.setdefault(ob.name, []).append(ob)
+                for name in sorted(names):
+                    for ob in groups.get(name, []):
+                        if time.time() > t_budget:
+                            break
+                        s = z3.Solver()
+                        s.set('timeout', 10000)
+                        s.add([a for _, a in sub.axioms()])
+                        s.add(ob.pc)
+                        s.add(sub.finite_side)
+                        s.add(z3.Not(ob.goal))
+                        r = s.check()
+                        if r == z3.sat:
+                            m = s.model()
+                            model = sub.concretize(m, ob)
+                            for rec in res.obligations:
+                                if rec['name'].split('/')[0] == name and rec['status'] != 'discharged':
+                                    rec['status'] = 'failed'
+                                    rec['model_scope'] = 'finite K=%d (obligation %s refuted as a whole)' % (K, name)
+                                    rec['path'] = list(ob.path)
+                                    rec['model'] = model
+                            names.discard(name)
+                            break
+            finally:
+                S.FINITE['K'] = None
+        if any(o['status'] == 'failed' for o in res.obligations):
+            res.status = 'failed'
+
+    refute_budget_s = 120
+
+    # ------------------------------------------------------------------ models -> concrete inputs
+    def concretize(self, m, ob=None):
+        """evaluate the function's *entry* state (parameters, self fields) in a model -> plain data;
+        for obligations inside loops also the state at the obligation (a counterexample to induction
+        starts at an arbitrary loop-head state, not necessarily at a reachable one)"""
+        out = {}
+        if self.init_env is None:
+            return out
+        for name, v in self.init_env.items():
+            try:
+                out[name] = self.conc_value(m, v, self.init_store, 0)
+            except Exception as e:
+                out[name] = '<%s>' % e
+        if ob is not None and ob.env is not None and any(str(x).startswith('L') for x in ob.path):
+            at = {}
+            for name, v in ob.env.items():
+                try:
+                    at[name] = self.conc_value(m, v, ob.store, 0)
+                except Exception as e:
+                    at[name] = '<%s>' % e
+            out['@state_at_obligation'] = at
+        for k, b in self.config_flags.items():
+            out['config.' + k] = z3.is_true(m.eval(b, model_completion=True))
         return out
+
+    def conc_value(self, m, v, store, depth):
+        if depth > 6:
+            return '<deep>'
+        v = self.lift(v)
+        if isinstance(v, NoneV):
+            return None
+        if isinstance(v, StrConst):
+            return v.s
+        if isinstance(v, OptV):
+            if z3.is_true(m.eval(v.none, model_completion=True)):
+                return None
+            return self.conc_value(m, v.val, store, depth + 1)
+        if isinstance(v, TupV):
+            return {'tuple': [self.conc_value(m, x, store, depth + 1) for x in v.items]}
+        if isinstance(v, SV):
+            return self.conc_expr(m, v.e, v.t, depth)
+        if isinstance(v, Ref):
+            c = store[v.id]
+            if isinstance(c, ObjC):
+                return {'object': c.cls, 'fields': {f: self.conc_value(m, x, store, depth + 1) for f, x in c.fields.items()}}
+            return self.conc_expr(m, pack_cell(c), c.t, depth)
+        return '<%s>' % type(v).__name__
+
+    def conc_expr(self, m, e, t, depth):
+        if depth > 6:
+            return '<deep>'
+        k = t.kind
+        ev = lambda x: m.eval(x, model_completion=True)
+        if k == 'int':
+            r = ev(e)
+            return r.as_long() if z3.is_int_value(r) else str(r)
+        if k == 'bool':
+            return z3.is_true(ev(e))
+        if k == 'real':
+            r = ev(e)
+            try:
+                return {'real': '%s/%s' % (r.numerator_as_long(), r.denominator_as_long())}
+            except Exception:
+                return {'real': str(r)}
+        if k == 'str':
+            r = ev(e)
+            return r.as_string() if z3.is_string_value(r) else str(r)
+        if k in ('sort', 'obj'):
+            return {'elt': str(ev(e))}
+        if k == 'tuple':
+            S = sort_of(t)
+            return {'tuple': [self.conc_expr(m, S.accessor(0, i)(e), a, depth + 1) for i, a in enumerate(t.args)]}
+        if k == 'opt':
+            S = sort_of(t)
+            if z3.is_true(ev(S.is_none(e))):
+                return None
+            return self.conc_expr(m, S.v(e), t.args[0], depth + 1)
+        if k == 'list':
+            S = sort_of(t)
+            n = ev(S.n(e))
+            n = n.as_long() if z3.is_int_value(n) else 0
+            n = max(0, min(n, 12))
+            return [self.conc_expr(m, z3.Select(S.arr(e), i), t.args[0], depth + 1) for i in range(n)]
+        if k in ('dict', 'set'):
+            S = sort_of(t)
+            n = ev(S.n(e))
+            n = n.as_long() if z3.is_int_value(n) else 0
+            n = max(0, min(n, 12))
+            items = []
+            for i in range(n):
+                key = z3.Select(S.keys(e), i)
+                kk = self.conc_expr(m, key, t.args[0], depth + 1)
+                if k == 'dict':
+                    items.append([kk, self.conc_expr(m, z3.Select(S.val(e), key), t.args[1], depth + 1)])
+                else:
+                    items.append(kk)
+            return {k: items}
+        if k == 'map':
+            # ghost total maps: sample the first few integer points
+            if t.args[0].kind == 'int':
+                return {'map': [self.conc_expr(m, z3.Select(e, i), t.args[1], depth + 1) for i in range(6)]}
+            return '<map>'
+        return '<%s>' % k
+
+
+def pack_cell(c):
+    S = sort_of(c.t)
+    if isinstance(c, ListC):
+        return S.mk(c.arr, c.n)
+    if isinstance(c, DictC):
+        return S.mk(c.dom, c.val, c.keys, c.pos, c.n)
+    return S.mk(c.dom, c.keys, c.pos, c.n)
